@@ -516,6 +516,44 @@ func c09Unprintable(rt *rapid.T) *c09Case {
 	return cs
 }
 
+// c09Shadow: a later change names a package that it imports, and the file
+// has a local of that name, inside code that an earlier change rebuilds (by
+// carrying it over in a metavariable) or leaves alone. Whatever gopatch makes
+// of the local, it has to make the same of it whether the earlier change ran
+// in the same process or in a run of its own.
+func c09Shadow(rt *rapid.T) *c09Case {
+	cs := &c09Case{Family: "synthetic-shadowed-package"}
+	pk := rapid.SampledFrom([][2]string{{"http", "net/http"}, {"strings", "strings"}, {"rand", "math/rand"}}).Draw(rt, "pkg")
+	name, path := pk[0], pk[1]
+	var f strings.Builder
+	fmt.Fprintf(&f, "package p\n\nimport %q\n\n", path)
+	fmt.Fprintf(&f, "func real(u string) {\n\treport(%s.Get(u))\n\tplain(%s.Get(u))\n}\n\n", name, name)
+	switch rapid.IntRange(0, 2).Draw(rt, "shadowKind") {
+	case 0:
+		fmt.Fprintf(&f, "func shadowed(u string) {\n\t%s := fetcher{}\n\treport(%s.Get(u))\n\tplain(%s.Get(u))\n}\n", name, name, name)
+	case 1:
+		fmt.Fprintf(&f, "func shadowed(%s fetcher, u string) {\n\treport(%s.Get(u))\n\tplain(%s.Get(u))\n}\n", name, name, name)
+	default:
+		fmt.Fprintf(&f, "func shadowed(u string) {\n\tvar %s fetcher\n\tif ok(u) {\n\t\treport(%s.Get(u))\n\t}\n\tplain(%s.Get(u))\n}\n", name, name, name)
+	}
+	cs.File = f.String()
+	first := rapid.SampledFrom([]string{
+		"@@\nvar x expression\n@@\n-report(x)\n+log(x)\n",
+		"@@\nvar x expression\n@@\n-report(x)\n+log(x, x)\n",
+		"@@\nvar x expression\n@@\n-plain(x)\n+plainer(x)\n",
+		"@@\n@@\n-ok(u)\n+okay(u)\n",
+	}).Draw(rt, "first")
+	second := rapid.SampledFrom([]string{
+		"@@\nvar x expression\n@@\n import %q\n\n-%s.Get(x)\n+%s.Head(x)\n",
+		"@@\nvar x expression\n@@\n import %q\n\n-%s.Get(x)\n+%s.Get(x, nil)\n",
+	}).Draw(rt, "second")
+	cs.Changes = []string{first, fmt.Sprintf(second, path, name, name)}
+	if rapid.Bool().Draw(rt, "third") {
+		cs.Changes = append(cs.Changes, "@@\nvar x expression\n@@\n-log(x)\n+logged(x)\n")
+	}
+	return cs
+}
+
 var c09Opts = modelOpts{
 	Mine:         gen.MineOpts{MaxHoles: 2, MaxDots: 1},
 	MaxHostLines: 150,
@@ -577,8 +615,11 @@ func TestC09(t *testing.T) {
 				cs = c09Focused(rt)
 			} else if k == 2 {
 				cs = c09Emptied(rt)
-				if rapid.IntRange(0, 3).Draw(rt, "unprintable") == 0 {
+				switch rapid.IntRange(0, 5).Draw(rt, "otherSynthetic") {
+				case 0:
 					cs = c09Unprintable(rt)
+				case 1, 2:
+					cs = c09Shadow(rt)
 				}
 			} else {
 				cs = c09Synthetic(rt)
